@@ -272,6 +272,12 @@ func runC08(c *Ctx) {
 				}
 			})
 		}
+		// or any other spelling of "header name ∈ constant set" (package-level literal, switch, equality chain)
+		if len(keys) == 0 {
+			for _, t := range c.constSetTests(vs, nil, func(p string) bool { return strings.Contains(p, "range(") }) {
+				keys = t.set
+			}
+		}
 		c.Check("C08.X2", "client-whitelist", eqStrs(keys, []string{"alg", "kid"}), vs.Pos(), fmt.Sprintf("client signer-header whitelist %v (parser's is checked to be {alg,kid} by C02.G4)", keys))
 	}
 	c.Min("C08.X2", 1)
